@@ -13,14 +13,14 @@ LEVEL = "fault_enumeration"
 TLS_CLASSES = [(tls.SSL30, 0x0035, False), (tls.TLS10, 0x0005, False), (tls.TLS10, 0x002F, False), (tls.TLS11, 0x000A, False),
                (tls.TLS12, 0xC02F, False), (tls.TLS12, 0x003C, True), (tls.TLS12, 0xCCA8, False), (tls.TLS13, 0x1301, False),
                (tls.TLS13, 0x1303, False)]
-TLS_SHAPES = ["per_record", "span3", "coalesced", "mss7", "reordered", "duplicated"]
+TLS_SHAPES = ["per_record", "span3", "coalesced", "mss7", "reordered", "duplicated", "coalesced_retransmission"]
 QUIC_SHAPES = ["default", "coalesced", "key_update", "zero_rtt", "chacha_retry", "two_flows"]
 
 
 def describe(tier):
     return {
         "rule": f"{len(TLS_CLASSES)} TLS classes x {len(TLS_SHAPES)} packetisations (one record per segment, records spanning 3 "
-                "segments, coalesced flights with two records per segment, 7-byte segments, a displaced segment, a retransmission) + "
+                "segments, coalesced flights with two records per segment, 7-byte segments, a displaced segment, a retransmission, a coalescing retransmission) + "
                 f"{len(QUIC_SHAPES)} QUIC captures (default, coalesced, key updates, 0-RTT, ChaCha20 with Retry, two interleaved flows); "
                 "every cut position 0..N of every capture. non-trivial: a cut whose export is strictly longer than the previous "
                 "cut's; distinct = distinct (capture, cut)",
@@ -57,7 +57,8 @@ def build(case):
             scn["server_group"] = "all_in_one"
         conn = scen.tls_conn(scn, seed)
         e = cap.Ends(4, v6=(case["cls"] % 2 == 1))
-        mss = {"per_record": 1460, "span3": 300, "coalesced": 1460, "mss7": 7, "reordered": 300, "duplicated": 300}[sh]
+        mss = {"per_record": 1460, "span3": 300, "coalesced": 1460, "mss7": 7, "reordered": 300, "duplicated": 300,
+               "coalesced_retransmission": 300}[sh]
         if sh == "coalesced":
             # merge consecutive sends of one direction so that one segment carries several records
             sends, out = scen.tls_sends(conn), []
@@ -78,6 +79,21 @@ def build(case):
             if nxt:
                 p = pk.pop(i)
                 pk.insert(nxt[0], p)
+        if sh == "coalesced_retransmission":
+            # a retransmission that carries the original segment together with its successor under the original's sequence
+            # number (TCP may coalesce on retransmit), captured a little later
+            ins = []
+            for a in range(1, len(data_idx) - 1, 3):
+                i = data_idx[a]
+                nxt = [j for j in data_idx if j > i and pk[j].dir == pk[i].dir]
+                if not nxt or pk[nxt[0]].seq != (pk[i].seq + len(pk[i].payload)) & 0xFFFFFFFF:
+                    continue
+                r = pk[i].copy()
+                r.payload = pk[i].payload + pk[nxt[0]].payload
+                r.end = pk[nxt[0]].end
+                ins.append((min(len(pk), nxt[0] + 2), r))
+            for at, r in sorted(ins, key=lambda x: -x[0]):
+                pk.insert(at, r)
         if sh == "duplicated":
             for i in data_idx[2::3][::-1]:
                 pk.insert(min(len(pk), i + 2), pk[i])
